@@ -503,6 +503,8 @@ def script_templates(sp: Space, scripts: typing.Dict[str, list], lang: str, cons
                 body.append(it[1])
             elif it[0] == 'k':
                 body.append('<%s>' % fname)
+            elif it[0] == 'mac':
+                body.append('{{ wrap("%s") }}' % it[1])
             elif it[0] == 'omit':
                 body.append('{{ nunavut.support.omit }}')
             elif it[0] == 'audit':
@@ -512,8 +514,10 @@ def script_templates(sp: Space, scripts: typing.Dict[str, list], lang: str, cons
             elif it[0] == 'id':
                 body.append('{{ T.full_name }}')
         parts.append('{%% %s %s %%}%s' % ('if' if i == 0 else 'elif', cond, ''.join(body)))
-      return ''.join(parts) + '{% endif %}'
+      # every template imports (without context) a macro file that keeps NO state: a constant and a pure macro
+      return "{%- from 'macros.j2' import wrap, OPEN -%}" + ''.join(parts) + '{% endif %}'
     out = {n + '.j2': chain(n + '.j2') for n in names}
+    out['macros.j2'] = "{% set OPEN = '[' %}{% macro wrap(x) %}{{ OPEN }}{{ x }}]{% endmacro %}"
     out['Namespace.j2'] = ''
     return out
 
@@ -536,6 +540,8 @@ def gen_script(rng, tid: str) -> list:
             items.append(['u', rng.choice(BASES)])
         elif r < 0.9:
             items.append([rng.choice(['omit', 'audit'])])
+        elif r < 0.95:
+            items.append(['mac', rng.choice(['m', 'q7', 'zz'])])
         else:
             items.append(['id'])
     if style in (1, 2):
@@ -552,7 +558,8 @@ def concretise_args(script: list, args: int, trim: bool = False, lstrip: bool = 
     environment act on the text next to the block tags that enclose a type's script ({% if/elif .. %}<script>{% elif/endif %}):
     trim_blocks removes a newline directly after the opening tag, lstrip_blocks removes blanks between the last newline and
     the closing tag"""
-    out = [['t', str(bool(args & 1))] if it[0] == 'omit' else ['t', str(bool(args & 2))] if it[0] == 'audit' else list(it) for it in script]
+    out = [['t', str(bool(args & 1))] if it[0] == 'omit' else ['t', str(bool(args & 2))] if it[0] == 'audit'
+           else ['t', '[%s]' % it[1]] if it[0] == 'mac' else list(it) for it in script]
     if trim and out and out[0][0] == 't' and out[0][1].startswith('\n'):
         out[0] = ['t', out[0][1][1:]]
     if lstrip and out and out[-1][0] == 't':
@@ -664,6 +671,23 @@ def memo_witness_history() -> Hist:
 
 
 FID_DEP = 'F-DEPBUILDER-STALE'
+FID_TPL = 'F-TPL-MODULE-STATE'
+
+
+def tplstate_witness_history() -> Hist:
+    """the witness of F-TPL-MODULE-STATE: C, user templates; Any.j2 imports (without context) a macro file that keeps a counter at its
+    top level; whole namespace {A, B} and then, with a new generator, the subset {B}"""
+    sp = Space('nsw')
+    sp.add('', 'A', 'uint8 x\n@sealed\n', [])
+    b = sp.add('', 'B', 'uint8 y\n@sealed\n', [])
+    h = Hist('tplstate-witness', sp, 'probe')
+    h.cfgs[1] = {'lang': 'c', 'scripts': {}, 'templates': {
+        'Any.j2': "{% from 'm.j2' import bump %}{{ T.full_name }} n={{ bump() }}", 'Namespace.j2': '',
+        'm.j2': "{% set st = namespace(n=0) %}{% macro bump() %}{% set st.n = st.n + 1 %}{{ st.n }}{% endmacro %}"}}
+    h.run(h.new(1))
+    h.run(h.new(1, [b]))
+    return h
+
 
 
 def depbuilder_witness_history() -> Hist:
@@ -915,7 +939,8 @@ def main(chk: core.Check, replay: typing.Optional[str] = None) -> int:
             import random
             rng = random.Random(doc['seed'])
     n_script = 40 if quick else 400
-    hists: typing.List[Hist] = [witness_history(), fold_witness_history(), memo_witness_history(), depbuilder_witness_history()]
+    hists: typing.List[Hist] = [witness_history(), fold_witness_history(), memo_witness_history(), depbuilder_witness_history(),
+                               tplstate_witness_history()]
     hists += [gen_script_history(rng, i) for i in range(n_script)]
     sp = builtin_space(rng, 3 if quick else 10)
     for lang in LANGS:
@@ -979,6 +1004,17 @@ def main(chk: core.Check, replay: typing.Optional[str] = None) -> int:
     def canon(lang_: str, text: str) -> str:
         # while F-PY-PICKLE-MEMO reproduces the length (hence the number of lines) of the _MODEL_ blob varies with the history
         return mask_blob(text) if (lang_ == 'py' and memo_live) else text
+
+    t_entries, _, t_errs = line_up(hists[4], results[4]['out'])
+    tpl_live = False
+    if not t_errs and len(t_entries) == 3:
+        tpl_live = t_entries[1]['text'] != t_entries[2]['text']
+        if tpl_live and chk.is_known(FID_TPL):
+            chk.report_known(FID_TPL, 'B generated after A: %r, B generated alone: %r' % (t_entries[1]['text'], t_entries[2]['text']))
+        elif tpl_live:
+            broken.append('unlisted deviation: state at the top level of an imported template file survives from file to file')
+    else:
+        broken.append('F-TPL-MODULE-STATE probe did not run: %s' % (t_errs[:1] or len(t_entries)))
 
     # 4. compare
     stats = {'histories': len(hists), 'script_histories': 0, 'builtin_histories': 0, 'files': 0, 'files_by_lang': {},
